@@ -223,7 +223,10 @@ def thorough_common(prop, all_obs):
         a.seeded = True
         ms += st.load_mutants(a)
         res = st.run(ms, int(os.environ.get("VERIF_SELFTEST_JOBS", "2"))) if ms else []
-        extra["checker_selftest"] = {"planted_changes": len(res), "caught": sum(1 for r in res if r["status"] == "caught"),
+        extra["checker_selftest"] = {"planted_changes": sum(1 for r in res if r["status"] not in ("silent-ok", "FALSE-ALARM")),
+                                     "caught": sum(1 for r in res if r["status"] == "caught"),
+                                     "behaviour_preserving_controls": sum(1 for r in res if r["status"] in ("silent-ok", "FALSE-ALARM")),
+                                     "controls_silent": sum(1 for r in res if r["status"] == "silent-ok"),
                                      "results": [{"id": r["id"], "status": r["status"], "hit": (r.get("hit") or [])[:1]} for r in res]}
     return extra
 
